@@ -421,7 +421,8 @@ class Inliner:
         self.tree = tree
         self.helpers = {}
         for st in tree.body:
-            if isinstance(st, ast.FunctionDef) and _is_private(st.name):
+            if isinstance(st, ast.FunctionDef) and (
+                    _is_private(st.name) or getattr(st, "_spliced", False)):
                 h = Helper(st, None)
                 if h.ok:
                     self.helpers[(None, st.name)] = h
@@ -485,6 +486,24 @@ class Inliner:
     def run(self):
         if not self.helpers:
             return self.tree
+        # helpers that call helpers: expand the callees' bodies first and
+        # take the helper's statements again afterwards (the statement list
+        # captured at classification time is stale once the function body
+        # was rewritten)
+        for _ in range(3):
+            stale = False
+            for key, h in list(self.helpers.items()):
+                before = ast.dump(h.fn)
+                self._func(h.fn, key[0])
+                if ast.dump(h.fn) != before:
+                    stale = True
+                    h2 = Helper(h.fn, key[0])
+                    if h2.ok:
+                        self.helpers[key] = h2
+                    else:
+                        del self.helpers[key]
+            if not stale:
+                break
         for st in self.tree.body:
             if isinstance(st, ast.FunctionDef):
                 self._func(st, None)
@@ -2111,6 +2130,8 @@ def _self_aliases(fn):
 
 def normalize_module(tree: ast.Module, extern=None) -> ast.Module:
     from . import normalize2 as _n2
+    _n2.flatten_private_bases(tree)
+    _n2.inline_private_properties(tree)
     tree = _n2.MatchToIf().visit(tree)
     ast.fix_missing_locations(tree)
     from . import staticeval
@@ -2132,6 +2153,7 @@ def normalize_module(tree: ast.Module, extern=None) -> ast.Module:
     _inline_decorators(tree)
     _inline_contextmanagers(tree)
     from . import normalize2 as n2
+    n2.inline_value_objects(tree)
     n2.closure_forms(tree)
     n2.generators_to_lists(tree)
     n2.class_constants(tree)
@@ -2173,11 +2195,13 @@ def normalize_module(tree: ast.Module, extern=None) -> ast.Module:
             break
         # (a second round folds helpers that only became direct calls
         # after a dispatch loop was unrolled)
+    tree = n2.Idioms3().visit(tree)
     for n in ast.walk(tree):
         if isinstance(n, ast.FunctionDef):
             for _ in range(4):
                 if not n2.collapse_aliases(n):
                     break
+            n2.merge_equal_definitions(n)
     tree = AttrCalls().visit(tree)
     n2.sort_keywords(tree)
     ntypes = _namedtuples(tree)
@@ -2187,5 +2211,6 @@ def normalize_module(tree: ast.Module, extern=None) -> ast.Module:
             _self_aliases(n)
             if ntypes:
                 _scalarise_records(n, ntypes)
+                n2.merge_equal_definitions(n)
     ast.fix_missing_locations(tree)
     return tree
